@@ -37,6 +37,30 @@ func runC15(a *A) {
 		}
 		seen := map[string]token.Pos{}
 		for _, ac := range a.fieldAccesses(pm) {
+			// removing an entry (an eviction written elsewhere) or measuring the map reaches no partition's state
+			if c, ok := ac.In.(*ssa.Call); ok {
+				if _, isDel := isBuiltinCall(c, "delete"); isDel {
+					continue
+				}
+			}
+			if ld, ok := ac.In.(*ssa.UnOp); ok && ld.Op == token.MUL && ld.Referrers() != nil && len(*ld.Referrers()) > 0 {
+				only := true
+				for _, r := range *ld.Referrers() {
+					c, isCall := r.(*ssa.Call)
+					if !isCall {
+						only = false
+						continue
+					}
+					_, isDel := isBuiltinCall(c, "delete")
+					_, isLen := isBuiltinCall(c, "len")
+					if !isDel && !isLen {
+						only = false
+					}
+				}
+				if only {
+					continue
+				}
+			}
 			if _, ok := seen[fname(ac.Fn)]; !ok {
 				seen[fname(ac.Fn)] = ac.In.Pos()
 			}
@@ -444,6 +468,143 @@ func (a *A) ruleLeftmostFirst() {
 		a.Und(construct, fn.Pos(), "emitGreedy does not call emitOne")
 		return
 	}
+	// general form: the emission is guarded by an ordered comparison one of whose operands is computed from the
+	// survivors' startSeq - directly, or through a running minimum kept in a local (possibly one a function
+	// literal captures)
+	cellStores := func(cell ssa.Value) []ssa.Value {
+		// the values stored into a local variable, whichever function (emitGreedy or a literal in it) stores
+		root := fn
+		var al ssa.Value = cell
+		if fv, ok := cell.(*ssa.FreeVar); ok {
+			lit := fv.Parent()
+			for _, in := range allInstrsOf(lit.Parent()) {
+				if mc, ok := in.(*ssa.MakeClosure); ok && mc.Fn == lit {
+					for i, b := range mc.Bindings {
+						if i < len(lit.FreeVars) && lit.FreeVars[i] == fv {
+							al = b
+						}
+					}
+				}
+			}
+		}
+		var out []ssa.Value
+		var scan func(f *ssa.Function)
+		scan = func(f *ssa.Function) {
+			for _, in := range allInstrsOf(f) {
+				if st, ok := in.(*ssa.Store); ok {
+					addr := st.Addr
+					if fv, ok := addr.(*ssa.FreeVar); ok {
+						for _, in2 := range allInstrsOf(f.Parent()) {
+							if mc, ok := in2.(*ssa.MakeClosure); ok && mc.Fn == f {
+								for i, b := range mc.Bindings {
+									if i < len(f.FreeVars) && f.FreeVars[i] == fv {
+										addr = b
+									}
+								}
+							}
+						}
+					}
+					if addr == al {
+						out = append(out, st.Val)
+					}
+				}
+			}
+			for _, an := range f.AnonFuncs {
+				scan(an)
+			}
+		}
+		scan(root)
+		return out
+	}
+	var derives func(v ssa.Value, d int, seen map[ssa.Value]bool) bool
+	derives = func(v ssa.Value, d int, seen map[ssa.Value]bool) bool {
+		if v == nil || d > 12 || seen[v] {
+			return false
+		}
+		seen[v] = true
+		switch x := v.(type) {
+		case *ssa.FieldAddr:
+			return fieldVarOf(x) == startSeq
+		case *ssa.Field:
+			return fieldVarOf(x) == startSeq
+		case *ssa.UnOp:
+			if x.Op != token.MUL {
+				return derives(x.X, d+1, seen)
+			}
+			switch y := x.X.(type) {
+			case *ssa.FieldAddr:
+				return fieldVarOf(y) == startSeq
+			case *ssa.Alloc, *ssa.FreeVar:
+				for _, sv := range cellStores(y) {
+					if derives(sv, d+1, seen) {
+						return true
+					}
+				}
+			}
+		case *ssa.Phi:
+			for _, e := range x.Edges {
+				if derives(e, d+1, seen) {
+					return true
+				}
+			}
+		case *ssa.BinOp:
+			return derives(x.X, d+1, seen) || derives(x.Y, d+1, seen)
+		case *ssa.Convert:
+			return derives(x.X, d+1, seen)
+		case *ssa.ChangeType:
+			return derives(x.X, d+1, seen)
+		}
+		return false
+	}
+	// the emission is control-dependent on an ordered comparison with a value computed from the survivors'
+	// startSeq: some branch on such a comparison leads to the emission on one side and cannot reach it on the
+	// other (`if live && minLive <= s { return false }` compiles to two branches; the second is the one)
+	orderedOnStart := func(v ssa.Value) bool {
+		for _, l := range phiLeaves(v) {
+			for {
+				u, ok := l.(*ssa.UnOp)
+				if !ok || u.Op != token.NOT {
+					break
+				}
+				l = u.X
+			}
+			bo, ok := l.(*ssa.BinOp)
+			if !ok {
+				continue
+			}
+			switch bo.Op {
+			case token.LSS, token.LEQ, token.GTR, token.GEQ:
+				if derives(bo.X, 0, map[ssa.Value]bool{}) || derives(bo.Y, 0, map[ssa.Value]bool{}) {
+					return true
+				}
+			}
+		}
+		return false
+	}
+	guardedByOrder := func(c ssa.Instruction) bool {
+		for _, b := range c.Parent().Blocks {
+			iff, ok := b.Instrs[len(b.Instrs)-1].(*ssa.If)
+			if !ok || b.Succs[0] == b.Succs[1] || !orderedOnStart(iff.Cond) {
+				continue
+			}
+			r0 := b.Succs[0] == c.Block() || reachesAvoiding(b.Succs[0], c.Block(), b)
+			r1 := b.Succs[1] == c.Block() || reachesAvoiding(b.Succs[1], c.Block(), b)
+			if r0 != r1 {
+				return true
+			}
+		}
+		return false
+	}
+	allGuarded := true
+	for _, c := range calls {
+		if !guardedByOrder(c) {
+			allGuarded = false
+		}
+	}
+	if allGuarded {
+		a.Ok(construct, calls[0].Pos(), "every emission is guarded by an ordered comparison with a value computed from the surviving runs' startSeq")
+		return
+	}
 	if ordered == nil {
 		a.Bad(construct, calls[0].Pos(), "emitGreedy never compares the start it emits with the startSeq of the surviving runs by order: a later start is emitted while an earlier-start run is still alive, and the emission prunes the earlier, leftmost match")
 		return
@@ -451,7 +612,7 @@ func (a *A) ruleLeftmostFirst() {
 	// the comparison must be able to prevent the emission: some path from it avoids the emitOne call
 	ok := false
 	for _, c := range calls {
-		if !dominatesInstr(c, ordered) && ordered.Block() != c.Block() {
+		if c.Parent() == ordered.Parent() && !dominatesInstr(c, ordered) && ordered.Block() != c.Block() {
 			ok = true
 		}
 	}
